@@ -2741,13 +2741,14 @@ class op(object):
                 else:
                     varname = str(k)
                 varname = varname[:(7-len(str(i)))] + '_' + str(i)
+                start = f.tell()
 
                 if v in self.objective._linear._coeff:
                     cf = self.objective._linear._coeff[v]
                     if cf[i] != 0.0:
                         f.write(4*' ' + varname[:8].rjust(8))
                         f.write(2*' ' + '%8s' %'cost')
-                        f.write(2*' ' + '% 7.5E\n' %cf[i])
+                        f.write(2*' ' + _mpsnum(cf[i]) + '\n')
 
                 for j in range(len(constraints)):
                      c = constraints[j]
@@ -2765,7 +2766,7 @@ class op(object):
                                      + '_' + str(l)
                                  f.write(4*' ' + varname[:8].rjust(8))
                                  f.write(2*' ' + conname[:8].rjust(8))
-                                 f.write(2*' ' + '% 7.5E\n' %cf[l,i])
+                                 f.write(2*' ' + _mpsnum(cf[l,i]) + '\n')
                          elif cf.size == (1,len(v)):
                              if cf[0,i] != 0.0:
                                  for l in range(len(c)):
@@ -2775,14 +2776,21 @@ class op(object):
                                          varname[:8].rjust(8))
                                      f.write(2*' ' + 
                                          conname[:8].rjust(8))
-                                     f.write(2*' '+'% 7.5E\n' %cf[0,i])
+                                     f.write(2*' ' + _mpsnum(cf[0,i]) + '\n')
                          elif _isscalar(cf):
                              if cf[0,0] != 0.0:
                                  conname = cname[:(7-len(str(i)))] \
                                      + '_' + str(i)
                                  f.write(4*' ' + varname[:8].rjust(8))
                                  f.write(2*' ' + conname[:8].rjust(8))
-                                 f.write(2*' ' + '% 7.5E\n' %cf[0,0])
+                                 f.write(2*' ' + _mpsnum(cf[0,0]) + '\n')
+
+                if f.tell() == start:
+                    # a component without nonzero coefficient still needs 
+                    # a column (it is listed under BOUNDS)
+                    f.write(4*' ' + varname[:8].rjust(8))
+                    f.write(2*' ' + '%8s' %'cost')
+                    f.write(2*' ' + _mpsnum(0.0) + '\n')
                         
         f.write('RHS\n') 
         for j in range(len(constraints)):
@@ -2796,9 +2804,9 @@ class op(object):
                  conname = cname[:(7-len(str(l)))] + '_' + str(l)
                  f.write(14*' ' + conname[:8].rjust(8))
                  if const.size[0] == len(c):
-                     f.write(2*' ' + '% 7.5E\n' %const[l])
+                     f.write(2*' ' + _mpsnum(const[l]) + '\n')
                  else:
-                     f.write(2*' ' + '% 7.5E\n' %const[0])
+                     f.write(2*' ' + _mpsnum(const[0]) + '\n')
 
         f.write('RANGES\n') 
 
@@ -3152,6 +3160,19 @@ def dot(x,y):
         raise TypeError('invalid argument types or incompatible '\
             'dimensions')
 
+
+
+def _mpsnum(a):
+
+    '''
+    The number a as a 12-character MPS number field.  '% 7.5E' needs 13 
+    characters for an exponent of three digits; the last digit of the 
+    mantissa is dropped in that case.
+    '''
+
+    s = '% 7.5E' %a
+    if len(s) > 12: s = '% 6.4E' %a
+    return s
 
 
 def _veclen(a):
